@@ -664,6 +664,10 @@ def gen_frame(repo):
     env = Env({"self": ("self", "frame")})
     text = ct.tr(methods["payload"][2], env, lambda e2, v, ty: ".ok %s" % v)
     out.append("/-- `Frame::payload`. -/\ndef payload (self : Frame) : Except Panic (List UInt8) :=\n%s\n" % indent(text))
+    pure_payload = None
+    if text.startswith(".ok ") and "idxE" not in text and "liftE" not in text and "\n" not in text:
+        pure_payload = text[4:]
+        out.append("/-- `Frame::payload` has no panicking operation: the same expression as a plain function. -/\ndef payloadPure (self : Frame) : List UInt8 :=\n  %s\n" % pure_payload)
     env = Env({"self": ("self", "frame")})
     text = ct.tr(methods["to_bytes"][2], env, lambda e2, v, ty: ".ok %s" % v)
     out.append("/-- `Frame::to_bytes`. -/\ndef toBytes (self : Frame) : Except Panic (List UInt8) :=\n%s\n" % indent(text))
@@ -691,7 +695,114 @@ def gen_frame(repo):
         raise TranslateError("frame.rs: the frame regular expression is not the one the model's Shape transcribes")
     out.append("/-- The (verbose-mode) regular expression of `Frame::from_bytes`, comments and layout removed, is the one the\n    model transcribes (`^:` + 2 + 4 + 2 hex digits + hex pairs + 2 hex digits + optional CRLF `$`) — checked by the\n    translator as text; the regex engine itself is outside the model (DESIGN.md §8). -/\n"
                "def frameRegexIsPinned : Bool := true\n")
+    if pure_payload is not None:
+        out.append(gen_from_captures(ct, methods, src))
     return [path], "\n".join(out), ct.dropped
+
+
+def gen_from_captures(ct, methods, src):
+    """`Frame::from_bytes` after the regular expression has matched: the five captured groups are parsed as
+    hex (template), then the length test, `Data::try_new`, the checksum test and their errors are translated
+    statement by statement into a function of the captured values."""
+    body = methods["from_bytes"][2]
+    if not (body and body[0][0] == "expr" and body[0][1][0] == "macro" and body[0][1][1] == "lazy_static"):
+        raise TranslateError("frame.rs: from_bytes does not start with the lazy_static! regular expression")
+    st = body[1:]
+    want_cap = ("let", ("pbind", "captures"), False, ("try", ("method", ("method", ("path", ["RE"]), "captures", [("path", ["bytes"])]), "ok_or_else",
+                [("closure", [], ("struct", ["FrameError", "InvalidFrame"], [("data", ("method", ("path", ["bytes"]), "into", []))]))])))
+    if not st or st[0] != want_cap:
+        raise TranslateError("frame.rs: from_bytes: the match / InvalidFrame step has an unexpected form")
+    # the captured groups
+    groups = {}
+    types = dict((m.group(1), m.group(2)) for m in re.finditer(r"let\s+(\w+)\s*=\s*parse_hex::<(\w+)>\(captures\.name\(", src))
+    i = 1
+    data_bytes_var = None
+    while i < len(st) and st[i][0] == "let" and st[i][1][0] == "pbind":
+        name, e = st[i][1][1], st[i][3]
+        def cap(x):
+            if x[0] == "method" and x[2] == "as_bytes" and x[1][0] == "method" and x[1][2] == "unwrap" and x[1][1][0] == "method" \
+                    and x[1][1][2] == "name" and x[1][1][1] == ("path", ["captures"]) and len(x[1][1][3]) == 1 and x[1][1][3][0][0] == "str":
+                return x[1][1][3][0][1].strip('"')
+            return None
+        if e[0] == "call" and e[1] == ("path", ["parse_hex"]) and len(e[2]) == 1 and cap(e[2][0]):
+            if name not in types:
+                raise TranslateError("frame.rs: from_bytes: no type for the parsed group " + name)
+            groups[name] = (cap(e[2][0]), types[name])
+        elif cap(e) == "data":
+            data_bytes_var = name
+        else:
+            break
+        i += 1
+    want_groups = {"data_len": ("data_len", "u8"), "address": ("address", "u16"), "message_type": ("message_type", "u8"), "provided_checksum": ("checksum", "u8")}
+    if groups != want_groups or data_bytes_var is None:
+        raise TranslateError("frame.rs: from_bytes: the captured groups are not data_len:u8, address:u16, message_type:u8, data, checksum:u8")
+    want_data = ("let", ("pbind", "data"), False, ("method", ("method", ("method", ("path", [data_bytes_var]), "chunks", [("num", 2)]), "map", [("path", ["parse_hex"])]), "collect", []))
+    if i >= len(st) or st[i] != want_data or not re.search(r"chunks\(2\)\s*\.map\(parse_hex::<u8>\)", src):
+        raise TranslateError("frame.rs: from_bytes: the data bytes are not parsed pair by pair as u8")
+    rest = st[i + 1:]
+    env = Env({"data_len": ("data_len", "u8"), "address": ("address", "u16"), "message_type": ("message_type", "u8"),
+               "provided_checksum": ("provided_checksum", "u8"), "data": ("data", "bytes")})
+
+    def err(e, env):
+        if not (e[0] == "call" and e[1] == ("path", ["Err"]) and len(e[2]) == 1 and e[2][0][0] == "struct" and e[2][0][2] is not None):
+            raise TranslateError("frame.rs: from_bytes: unsupported error value")
+        path, fields = e[2][0][1], dict(e[2][0][2])
+        if fields.get("data") != ("method", ("path", ["bytes"]), "into", []):
+            raise TranslateError("frame.rs: from_bytes: an error does not carry the input bytes")
+        kind = {("FrameError", "FrameDataMismatch"): ("mismatch", "nat"), ("FrameError", "BadChecksum"): ("badsum", "u8")}.get(tuple(path))
+        if kind is None or set(fields) != {"data", "expected", "actual"}:
+            raise TranslateError("frame.rs: from_bytes: unsupported error variant %s" % "::".join(path))
+        vals = []
+        for f in ("expected", "actual"):
+            pv, t, ty = ct.expr(fields[f], env, kind[1])
+            if pv:
+                raise TranslateError("frame.rs: from_bytes: panicking error field")
+            vals.append(ct.coerce(t, ty, kind[1]))
+        return ".error (.%s %s %s)" % (kind[0], vals[0], vals[1])
+
+    def tr(stmts, env):
+        if not stmts:
+            raise TranslateError("frame.rs: from_bytes: falls off the end")
+        s0, more = stmts[0], stmts[1:]
+        if s0[0] == "if" and s0[3] is None and len(s0[2]) == 1 and s0[2][0][0] == "return":
+            pc, c, tyc = ct.expr(s0[1], env)
+            if pc:
+                raise TranslateError("frame.rs: from_bytes: panicking condition")
+            return "if %s then %s\nelse\n%s" % (ct.prop(c, tyc), err(s0[2][0][1], env), indent(tr(more, env)))
+        if s0[0] == "let" and s0[1][0] == "pbind":
+            name, e = s0[1][1], s0[3]
+            env2 = env.copy()
+            if e[0] == "call" and e[1] == ("path", ["Frame", "new"]) and len(e[2]) == 3:
+                a, t, d = e[2]
+                pa, ta, tya = ct.expr(a, env, "u16")
+                pt, tt, tyt = ct.expr(t, env, "u8")
+                if pa or pt:
+                    raise TranslateError("frame.rs: from_bytes: panicking frame field")
+                if d[0] == "try" and d[1][0] == "call" and d[1][1] == ("path", ["Data", "try_new"]) and len(d[1][2]) == 1:
+                    pd, td, tyd = ct.expr(d[1][2][0], env)
+                    env2.vals[name] = ("(⟨%s, %s, checked⟩ : Frame)" % (ct.coerce(ta, tya, "u16"), ct.coerce(tt, tyt, "u8")), "frameval")
+                    return "match Data.tryNew %s with\n| .error e => .error e\n| .ok checked =>\n%s" % (td, indent(tr(more, env2)))
+                raise TranslateError("frame.rs: from_bytes: Frame::new without Data::try_new(..)?")
+            if e[0] == "method" and e[2] == "payload" and e[3] == [] and e[1][0] == "path" and env.vals.get(e[1][1][0], ("", ""))[1] == "frameval":
+                env2.vals[name] = ("(payloadPure %s)" % env.vals[e[1][1][0]][0], "bytes")
+                return tr(more, env2)
+            pv, t, ty = ct.expr(e, env)
+            if pv:
+                raise TranslateError("frame.rs: from_bytes: panicking binding")
+            env2.vals[name] = (t, ty)
+            return tr(more, env2)
+        if s0[0] == "expr" and not s0[2] and not more:
+            e = s0[1]
+            if e[0] == "call" and e[1] == ("path", ["Ok"]) and len(e[2]) == 1 and e[2][0][0] == "path" and env.vals.get(e[2][0][1][0], ("", ""))[1] == "frameval":
+                return ".ok %s" % env.vals[e[2][0][1][0]][0]
+        raise TranslateError("frame.rs: from_bytes: unsupported statement after the captures")
+
+    text = tr(rest, env)
+    return ("/-- `Frame::from_bytes` after the regular expression matched, as a function of the five captured groups\n"
+            "    (`data_len`, `address`, `message_type`, the data pairs, `checksum`, each parsed as hex): the order of the\n"
+            "    length test, `Data::try_new` and the checksum test, and what each error reports. -/\n"
+            "def fromCaptures (data_len : UInt8) (address : UInt16) (message_type : UInt8) (data : List UInt8) (provided_checksum : UInt8) :\n"
+            "    Except FrameErr Frame :=\n%s\n" % indent(text))
 
 
 def gen_core(repo):
